@@ -306,7 +306,11 @@ def scenario(draw, p=None):
     # target
     kind = draw(st.sampled_from(p["target_kinds"]))
     ccls = [draw(st.sampled_from(p["c_classes"])) for _ in range(D)]
-    cz = [draw(c_coord(coords[i], ccls[i], nonlinear)) for i in range(D)]
+    cz = [draw(c_coord(coords[i], ccls[i] if ccls[i] != "at_x0" else "inside", nonlinear)) for i in range(D)]
+    if x0 is not None:
+        for i in range(D):
+            if ccls[i] == "at_x0":  # warm start: the minimiser coordinate coincides with the (repaired) starting coordinate
+                cz[i] = z_of(coords[i], effective_x0(coords[i], x0[i]), nonlinear)
     scale = draw(st.sampled_from(list(p.get("scales", (1.0, 1.0, 1e-2, 10.0, 1e2, 1e4)))))
     tgt = dict(kind=kind, c=cz, scale=scale, offset=draw(st.sampled_from([0.0, 0.0, -3.5, 1000.0])),
                z=zs, out=draw(st.sampled_from(p["out_spellings"])), ccls=ccls)
